@@ -483,6 +483,26 @@ func TestC03(t *testing.T) {
 		offer(c, def, nestBomb(code, d), fmt.Sprintf("nest/depth=%d", d))
 	})
 
+	// 3b. claimed length x supplied bytes: a header that claims much and a peer
+	//     that delivers only part of it, around the 64 KiB growth step
+	claimed := []int{70000, 200000, 1 << 20, 0xFFFFFF}
+	supplied := []int{0, 1, 1000, 65535, 65536, 65537, 131072, 131073, 300000, 1 << 20}
+	rec.Suite("claimed-vs-supplied", len(claimed)*len(supplied), func(c *ev.Case) {
+		cl, su := claimed[c.I%len(claimed)], supplied[c.I/len(claimed)]
+		if su >= cl-20 {
+			return
+		}
+		in := make([]byte, 20+su)
+		copy(in, refcodec.EncodeHeader(refcodec.Header{Version: 1, Length: uint32(cl), Flags: 0x80, Code: 257, HopByHop: 1, EndToEnd: 1}))
+		if su >= 8 {
+			// one OctetString-like AVP that claims the rest of the message
+			in[20+3] = 44 // Session-Id... any code of the base dictionary: 263 = 0x107
+			in[20+2], in[20+3] = 0x01, 0x07
+			put24(in, 20+5, cl-20)
+		}
+		offer(c, def, in, fmt.Sprintf("claimed=%d/supplied=%d", cl, su))
+	})
+
 	// 4. random byte strings with plausible headers
 	rec.Suite("random", raceDiv(rec, rec.N(20000, 2000000), 8), func(c *ev.Case) {
 		r := c.R
